@@ -150,6 +150,14 @@ pub struct BuilderObs {
     pub n_exchanges: usize,
     pub n_linked: usize,
     pub gap_before_linked: bool,
+    /// final `Command::CancelOrders(InstrumentFilter::None)` issued once every answer has been applied:
+    /// the orders tracked right before it (instrument index, client order id, exchange order id if Open,
+    /// already cancel-in-flight?, LIVE slot, linked?)
+    pub tracked_before_cancel_all: Vec<(usize, String, Option<String>, bool, usize, bool)>,
+    /// cancels the clients received for it: (LIVE slot of the client, call)
+    pub cancel_all_calls: Vec<(usize, ClientCall)>,
+    /// what the command's audit reports: (requests sent, errors)
+    pub cancel_all_claim: (usize, usize),
 }
 
 pub type BuilderEngine = Engine<TestClock, fixtures::DefState, barter::engine::execution_tx::MultiExchangeTxMap<UnboundedTx<ExecutionRequest>>, ScriptStrategy<fixtures::DefState>, ScriptRisk<fixtures::DefState>>;
@@ -290,6 +298,36 @@ async fn run_async(case: &BuilderCase) -> Result<BuilderObs, String> {
     }
     for o in obs.reqs.iter_mut() {
         o.tracked_on_after_response = tracked_on(&engine, &o.req.cid);
+    }
+
+    // ---- cancel everything (C19 through the builder-built links)
+    let slot_of_exchange = |e: ExchangeId| LIVE.iter().position(|l| *l == e).unwrap();
+    for (i, ki) in ins.instruments().iter().enumerate() {
+        let slot = slot_of_exchange(ki.value.exchange.value);
+        for (cid, o) in engine.state.instruments.instrument_index(&InstrumentIndex(i)).orders.0.iter() {
+            let (id, cancelling) = match &o.state {
+                barter_execution::order::state::ActiveOrderState::Open(open) => (Some(open.id.0.to_string()), false),
+                barter_execution::order::state::ActiveOrderState::OpenInFlight(_) => (None, false),
+                barter_execution::order::state::ActiveOrderState::CancelInFlight(_) => (None, true),
+            };
+            obs.tracked_before_cancel_all.push((i, cid.0.to_string(), id, cancelling, slot, is_linked(slot)));
+        }
+    }
+    let audit = crate::catch(|| engine.process(EngineEvent::Command(Command::CancelOrders(barter::engine::state::instrument::filter::InstrumentFilter::None)))).map_err(|m| format!("PANIC in Engine::process for CancelOrders(None): {m}"))?;
+    if let EngineAudit::Process(pa) = &audit {
+        for out in pa.outputs.iter() {
+            if let EngineOutput::Commanded(ActionOutput::CancelOrders(s)) = out {
+                obs.cancel_all_claim = (s.sent.iter().count(), s.errors.iter().count());
+            }
+        }
+    }
+    for _ in 0..3 {
+        tokio::time::sleep(Duration::from_millis(20)).await;
+    }
+    for (x, c) in clients.iter().enumerate() {
+        for call in c.take_calls() {
+            obs.cancel_all_calls.push((x, call));
+        }
     }
     Ok(obs)
 }
